@@ -410,6 +410,18 @@ func TestGrid(t *testing.T) {
 		for k := uint(8); 1<<k < spec.N; k++ {
 			at := int32(1 << k)
 			c.Queries = append(c.Queries, [3]int32{at - 3, at + 4, 12}, [3]int32{at - 1, at + 1, 3}, [3]int32{at - 300, at + 200, 40})
+			// ranges that start and end exactly on multiples of a power of two (block boundaries of any precomputed summary)
+			mm := int32(20)
+			if k > 12 {
+				mm = 2 // long ranges: two counters are enough to see a wrong minimum
+			}
+			c.Queries = append(c.Queries, [3]int32{0, at, mm}, [3]int32{at / 2, at, mm}, [3]int32{at, at + at/2, mm})
+			if 2*int(at) < spec.N {
+				c.Queries = append(c.Queries, [3]int32{at, 2 * at, mm}, [3]int32{at, 2*at + 1, mm}, [3]int32{at - 1, 2 * at, mm})
+			}
+		}
+		for b := int32(1024); int(b)+3072 < spec.N && b < 40000; b += 1024 {
+			c.Queries = append(c.Queries, [3]int32{b, b + 1024, 16}, [3]int32{b, b + 3072, 16})
 		}
 		for i := 0; i < 40; i++ {
 			s := int32(vk.Mix(uint64(i)+uint64(spec.N)) % uint64(spec.N-1000))
